@@ -68,6 +68,9 @@ def gen_default(rng, kinds=None):
 
 
 RECEIVER_NAMES = ["self", "cls"]
+# names that are the receiver in OTHER conventions (metaclasses, other languages) or merely look like one: for Python - and
+# for the property, which leaves out self / cls only - a parameter called so is an ordinary parameter in every position
+NEAR_RECEIVER_NAMES = ["mcs", "klass", "this", "me", "metacls", "selfish", "mcls", "self_", "_self", "cls_", "kls", "Self"]
 GN_DEFAULTS = ["5", "0", "-1", "2.5", "True", "'x'", "mnist", "(1, 2)", "[]", "None"]
 
 
@@ -119,8 +122,11 @@ def mutate_doc_lines(rng, d):
 
 
 def gen_def(rng, kind=None, name=None, safe=False, allow_vararg=True, receiver_names=0.0, type_first=0.0, gn_defaults=0.0,
-            malformed=0.0, dmodes=None):
+            malformed=0.0, dmodes=None, near_receiver=0.0):
     """returns (source of one def at column 0, info dict).
+    near_receiver: probability that one positional parameter - usually the FIRST one of a plain function, else the first
+    after the receiver of a method or a later one - has a name that is the receiver of another convention or looks like
+    one (NEAR_RECEIVER_NAMES: mcs, klass, this, ...): Python keeps such a parameter whatever its position.
     type_first: probability that the `:type n:` field of a ReST entry is written BEFORE its `:param n:` / `:cvar n:` field
     (Sphinx accepts the fields of one parameter in either order).
     gn_defaults: probability that a Google / numpydoc entry documents a default ("... Defaults to 5").
@@ -147,6 +153,18 @@ def gen_def(rng, kind=None, name=None, safe=False, allow_vararg=True, receiver_n
             tags.append("receiver-name:positional")
         elif rn is not None:
             recv_kwonly = rn
+    if near_receiver and rng.random() < near_receiver:
+        nn = _uniq(rng, NEAR_RECEIVER_NAMES, used)
+        if not pos:
+            pos.append(nn)
+            tags.append("near-receiver:first")
+        else:
+            free = [i for i, n in enumerate(pos) if n not in RECEIVER_NAMES]
+            i = 0 if (pos[0] not in RECEIVER_NAMES and rng.random() < 0.7) else (rng.choice(free) if free else None)
+            if i is not None:
+                used.discard(pos[i])
+                pos[i] = nn
+                tags.append("near-receiver:" + ("first" if i == 0 else "later"))
     ndef = rng.randint(0, len(pos))
     sig_names = []
     dk = ["lit", "lit", "cont", "pcode"] if safe else None
@@ -555,7 +573,7 @@ def gen(rng, n, tier="quick"):
     while len(cases) < n:
         r = rng.random()
         if r < 0.50:
-            src, info = gen_def(rng, receiver_names=0.06, type_first=0.3, gn_defaults=0.3)
+            src, info = gen_def(rng, receiver_names=0.06, type_first=0.3, gn_defaults=0.3, near_receiver=0.07)
             if not _ok_source(src):
                 continue
             fd = ast.parse(src).body[0]
@@ -591,7 +609,7 @@ def gen(rng, n, tier="quick"):
             ordk = rng.choice(["sorted", "reversed", "rotated"])
             add("merge_inner_function", [src, infer_type, name, ordk], tags + ["class", "order:" + ordk])
         elif r < 0.72:
-            src, info = gen_def(rng, safe=True, receiver_names=0.06)
+            src, info = gen_def(rng, safe=True, receiver_names=0.06, near_receiver=0.07)
             if not _ok_source(src):
                 continue
             add("py_signature", [src, rng.random() < 0.5], info["tags"] + ["pysig"])
